@@ -1,4 +1,5 @@
 import Balm.Trans
+import Balm.ProdNet
 import Balm.Src
 /-! C18: identity inputs are constant along every asynchronous path (`input_const_along`), their
 single-literal subspaces are trap spaces (`single_trap`) and the least trap space of an attractor
